@@ -105,6 +105,9 @@ func scenario(c *hx.Ctx, pool []*pkey) {
 		p2 := w.genPeerSet()
 		setup = append(setup, genesisSpec(chain, g2, p2, c.Rng.Uint64()))
 		cfgs = append(cfgs, config{g2, p2})
+		if c.Intn(2) == 0 { // the higher key height is stored first
+			setup[0], setup[1] = setup[1], setup[0]
+		}
 	}
 	if c.Intn(3) == 0 {
 		setup = append(setup, genesisSpec(chain+1, 0, w.genPeerSet(), c.Rng.Uint64()))
@@ -176,7 +179,7 @@ func history(c *hx.Ctx, pool []*pkey) {
 			}
 			cl, bs := w.applyOp(op)
 			c.Count(fmt.Sprintf("history-genesis:class=%d", cl))
-			ops = append(ops, fmt.Sprintf("SGenesis %s %d", w.coqHeader(bs[0]), cl))
+			ops = append(ops, fmt.Sprintf("SGenesis %s %d %s", w.coqHeader(bs[0]), cl, w.khSnapshot([]uint64{1, 2})))
 			mention(chain, h)
 			if cl == 0 {
 				if op.Headers[0].HasPeers {
@@ -194,7 +197,10 @@ func history(c *hx.Ctx, pool []*pkey) {
 		local := append([]config{}, cfgs[chain]...)
 		for j := 0; j < nh; j++ {
 			h := next[chain] + uint32(j)
-			if c.Intn(7) == 0 && h > 0 {
+			if c.Intn(4) == 0 {
+				h += uint32(1 + c.Intn(20)) // leave a gap: a later call may fill it out of order
+			}
+			if c.Intn(5) == 0 && h > 0 {
 				h = uint32(c.Intn(int(h))) // an old height: usually already stored (skipped)
 			}
 			var sp hdrSpec
@@ -247,9 +253,14 @@ func history(c *hx.Ctx, pool []*pkey) {
 			hs = append(hs, w.coqHeader(b))
 			mention(b.spec.Chain, b.spec.Height)
 		}
+		mustAccept := len(bsPre) == 1 && !pres[0].skip && !bsPre[0].spec.BadPayload && w.validlySigned(bsPre[0].hdr)
 		cl := errClass(w.call("syncBlockHeader", syncBlockArgs(w.operator, raws), true))
 		c.Count(fmt.Sprintf("history-block:class=%d", cl))
-		ops = append(ops, fmt.Sprintf("SBlock %s %d", hx.CoqList(hs), cl))
+		if mustAccept && cl != 0 {
+			c.Fail(classValidRefused, "SyncBlockHeader refused a header signed by two thirds of the distinct governing peers",
+				replayCase{Setup: done, Probe: &bsPre[0].spec}, cl, 0)
+		}
+		ops = append(ops, fmt.Sprintf("SBlock %s %d %s", hx.CoqList(hs), cl, w.khSnapshot([]uint64{1, 2})))
 		if cl == 99 {
 			c.Fail("driver:unknown-error", "unclassified SyncBlockHeader error", op, cl, nil)
 		}
@@ -352,4 +363,128 @@ func multi(c *hx.Ctx, pool []*pkey) {
 	if n >= 2 && ns >= 2 {
 		c.Nontrivial(fmt.Sprintf("m|%v|%d|%v", kt, m, st))
 	}
+}
+
+// epochs: several peer-set changes on one chain.  Genesis announces P0 at height 0; K key headers
+// (each carrying a new chain config) are delivered as separate SyncBlockHeader calls in ascending
+// (order 0), descending (1) or shuffled (2) height order, each signed by two thirds of the set
+// that governs its height in the state it is delivered to.  Then, for heights inside every epoch
+// (just above the key height, in the middle, at the next key height, far above the last), headers
+// signed by (a) the governing set, (b) a superseded set, (c) a set that governs only later are
+// probed.  The oracle decides by the independent rule of world.governing; the whole delivery is
+// also one CSync case with the stored KeyHeights read back after every call.
+func epochs(c *hx.Ctx, pool []*pkey, order int) {
+	w := newWorld(c, pool)
+	chain := uint64(1 + c.Intn(2))
+	K := 2 + c.Intn(2)
+	perm := c.Rng.Perm(nKeys)
+	at := func(i int) int { return perm[i%nKeys] }
+	sets := [][]int{
+		{at(0), at(1), at(2), at(3)},
+		{at(4), at(5), at(6), at(7)},
+		{at(2), at(3), at(4), at(5)},
+		{at(6), at(7), at(0), at(1)},
+	}
+	heights := []uint32{0}
+	for i := 1; i <= K; i++ {
+		heights = append(heights, uint32(100*i+c.Intn(50)))
+	}
+	var done []opSpec
+	var ops []string
+	chains := []uint64{1, 2}
+	g := genesisSpec(chain, 0, sets[0], c.Rng.Uint64())
+	cl, bs := w.applyOp(g)
+	ops = append(ops, fmt.Sprintf("SGenesis %s %d %s", w.coqHeader(bs[0]), cl, w.khSnapshot(chains)))
+	if cl != 0 {
+		c.Fail("driver:genesis", "SyncGenesisHeader refused a genesis header", g, cl, 0)
+		return
+	}
+	done = append(done, g)
+	believed := []config{{0, sets[0]}}
+	var idx []int
+	for i := 1; i <= K; i++ {
+		idx = append(idx, i)
+	}
+	switch order % 3 {
+	case 1:
+		for i, j := 0, len(idx)-1; i < j; i, j = i+1, j-1 {
+			idx[i], idx[j] = idx[j], idx[i]
+		}
+	case 2:
+		c.Rng.Shuffle(len(idx), func(i, j int) { idx[i], idx[j] = idx[j], idx[i] })
+	}
+	c.Count(fmt.Sprintf("epochs:order=%s/K=%d", []string{"ascending", "descending", "shuffled"}[order%3], K))
+	for _, i := range idx {
+		gov := peersBelow(believed, heights[i])
+		bks := w.shuffled(keyPeers(gov))
+		if need := (2*distinct(gov) + 2) / 3; need < len(bks) && c.Intn(2) == 0 {
+			bks = bks[:need]
+		}
+		sp := hdrSpec{Chain: chain, Height: heights[i], Salt: c.Rng.Uint64(), Bks: bks, Sigs: okSigs(bks), HasPeers: true, Peers: sets[i]}
+		b := w.build(sp)
+		signers, total, ok := w.signingPeers(b.hdr)
+		must := w.validlySigned(b.hdr) && !w.headerPresent(chain, heights[i])
+		cl := errClass(w.call("syncBlockHeader", syncBlockArgs(w.operator, [][]byte{b.raw}), true))
+		ops = append(ops, fmt.Sprintf("SBlock %s %d %s", hx.CoqList([]string{w.coqHeader(b)}), cl, w.khSnapshot(chains)))
+		c.Count(fmt.Sprintf("epochs-key-header:class=%d", cl))
+		op := opSpec{Headers: []hdrSpec{sp}}
+		if cl == 0 {
+			w.judge(done, b, "SyncBlockHeader committed", signers, total, ok)
+			believed = append(believed, config{heights[i], sets[i]})
+			done = append(done, op)
+		} else if must {
+			c.Fail(classValidRefused, "SyncBlockHeader refused a key header signed by two thirds of the distinct governing peers",
+				replayCase{Setup: done, Probe: &sp}, map[string]interface{}{"class": cl, "stored_key_heights": w.keyHeights(chain)}, "accepted")
+		}
+	}
+	// probes inside every epoch
+	for e := 0; e <= K; e++ {
+		var hs []uint32
+		if e < K {
+			hs = []uint32{heights[e] + 1, (heights[e] + heights[e+1]) / 2, heights[e+1]}
+		} else {
+			hs = []uint32{heights[e] + 1, heights[e] + 1000 + uint32(c.Intn(100000))}
+		}
+		for _, h := range hs {
+			signersOf := []struct {
+				set  int
+				kind string
+			}{{e, "epoch-governing"}}
+			if e > 0 {
+				signersOf = append(signersOf, struct {
+					set  int
+					kind string
+				}{c.Intn(e), "epoch-superseded"})
+			}
+			if e < K {
+				signersOf = append(signersOf, struct {
+					set  int
+					kind string
+				}{e + 1 + c.Intn(K-e), "epoch-future"})
+			}
+			for _, so := range signersOf {
+				bks := w.shuffled(sets[so.set])
+				if c.Intn(2) == 0 {
+					bks = bks[:3]
+				}
+				sigs := okSigs(bks)
+				if c.Intn(3) == 0 {
+					sigs = okSigs(w.shuffled(bks))
+				}
+				w.probe(done, hdrSpec{Chain: chain, Height: h, Salt: c.Rng.Uint64(), Bks: bks, Sigs: sigs}, so.kind)
+			}
+		}
+	}
+	kh, peers := w.coqStoreParts(chains)
+	var pres []string
+	for _, h := range heights {
+		pres = append(pres, fmt.Sprintf("((%d, %d), %s)", chain, h, hx.CoqBool(w.headerPresent(chain, h))))
+	}
+	var opTerms []string
+	for _, o := range ops {
+		opTerms = append(opTerms, "("+o+")")
+	}
+	term := fmt.Sprintf("CSync %s %s %s %s", hx.CoqList(opTerms), kh, peers, hx.CoqList(pres))
+	c.Case(term, map[string]interface{}{"kind": "epochs", "order": order % 3, "key_headers": K})
+	c.Nontrivial("e|" + term)
 }
